@@ -4,5 +4,6 @@ CONSTANTS
   NegMag = {1, 3}
   Gaps = {1}
   MaxLen = 6
+  MaxResets = 0
 INVARIANT Emit
 CHECK_DEADLOCK FALSE
